@@ -1,7 +1,7 @@
 (** Stage 3: the "(" of a call is glued to the callee; the rule that decides the ";" between
     statements looks at the tree, not at the text. *)
 From DL Require Import Lib.Bytes Model.Lexer Model.DenseGen Model.Precedence Model.C02Spec
-  Proof.DenseGenFacts Proof.C02FrozenTables.
+  Proof.DenseGenFacts Proof.PrecedenceFacts Proof.C02FrozenTables.
 Require Import Lia.
 Open Scope N_scope.
 
@@ -16,23 +16,6 @@ Proof.
     rewrite <- !app_assoc. reflexivity.
 Qed.
 
-Lemma print_plain_nonempty e : print_plain e <> [].
-Proof.
-  destruct e; cbn [print_plain]; try discriminate.
-  intros H. apply app_eq_nil in H as [_ H]. discriminate H.
-Qed.
-
-Lemma last_app_nonempty {A} (x y : list A) d : y <> [] -> last (x ++ y) d = last y d.
-Proof.
-  intros Hy. induction x as [|a x IH]; [reflexivity|].
-  cbn [app]. destruct (x ++ y) eqn:E.
-  - apply app_eq_nil in E as [_ E]. contradiction.
-  - exact IH.
-Qed.
-
-Lemma last_cons_nonempty {A} (a : A) (y : list A) d : y <> [] -> last (a :: y) d = last y d.
-Proof. intros Hy. destruct y; [contradiction|reflexivity]. Qed.
-
 (** where the generator adds no parentheses along the right spine, the tree-based rule and
     the text agree *)
 Theorem semicolon_rule_partial : forall isp P e,
@@ -40,7 +23,7 @@ Theorem semicolon_rule_partial : forall isp P e,
   ends_prefix isp e = closes_prefix isp (tokens_of_expr P e).
 Proof.
   intros isp P. unfold tokens_of_expr, closes_prefix.
-  induction e as [a|o l IHl r IHr|u x IHx|x IHx]; intros H; cbn [right_spine_plain] in H.
+  induction e as [a|o l IHl r IHr|u x IHx|x IHx|x IHx k]; intros H; cbn [right_spine_plain] in H.
   - reflexivity.
   - apply andb_true_iff in H as [H1 H2]. apply Bool.negb_true_iff in H1.
     cbn [parenthesize print_plain ends_prefix]. rewrite H1. cbn [wrap].
@@ -55,6 +38,8 @@ Proof.
     rewrite last_cons_nonempty.
     + rewrite last_app_nonempty by discriminate. reflexivity.
     + intros E. apply app_eq_nil in E as [_ E]. discriminate E.
+  - cbn [parenthesize print_plain ends_prefix].
+    rewrite last_app_nonempty by discriminate. reflexivity.
 Qed.
 
 (** ... and where it does, they do not: [a * (c + 1)] written from the tree
